@@ -93,6 +93,12 @@ func relayFor(class string, rng *rand.Rand) string {
 		return `</script><script>alert(1)//` + GenXMLString(rng, 1, 8) + `</form><form action="https://evil.example/">`
 	case "newline":
 		return "line1\nline2\tcol sep\r\nline3\rline4" + GenXMLString(rng, 0, 5) + "\n"
+	case "binary":
+		// octets that are not UTF-8 (an opaque token, compressed state): a relay state is a string of octets
+		return []string{"\xff", "tok\xc3", "a\x80b", "\xed\xa0\x80", "\x1f\x8b\x08\x00state"}[rng.Intn(5)] + GenXMLString(rng, 0, 4)
+	case "control":
+		// C0 controls other than NUL, DEL, and the two non-characters at the end of the BMP
+		return "ff\x0c esc\x1b soh\x01 del\x7f us\x1f \uffff \ufffe " + GenXMLString(rng, 0, 4)
 	case "nonascii":
 		return "zażółć 中文 😀 " + GenXMLString(rng, 3, 12)
 	case "long":
@@ -105,7 +111,9 @@ func relayFor(class string, rng *rand.Rand) string {
 const idpQuery = "?foo=bar&x=1%202&tenant=a%26b"
 const idpFragment = "#/saml/login?next=1&SAMLRequest=zzz"
 
-func hasQuery(kind string) bool    { return kind == "query" || kind == "queryfragment" }
+func hasQuery(kind string) bool    { return kind == "query" || kind == "queryfragment" || kind == "suffixquery" }
+
+const idpSuffixQuery = "&DefaultRelayState=%2Fportal&LastSigAlg=none&XSAMLRequest=zzz&ASignature=q"
 func hasFragment(kind string) bool { return kind == "fragment" || kind == "queryfragment" }
 
 func bindingsSP(in *bInput) (*saml2.SAMLServiceProvider, string) {
@@ -118,6 +126,10 @@ func bindingsSP(in *bInput) (*saml2.SAMLServiceProvider, string) {
 	if hasQuery(in.Idpurl) {
 		sp.IdentityProviderSSOURL += idpQuery
 		sp.IdentityProviderSLOURL += idpQuery
+	}
+	if in.Idpurl == "suffixquery" {
+		sp.IdentityProviderSSOURL += idpSuffixQuery
+		sp.IdentityProviderSLOURL += idpSuffixQuery
 	}
 	if hasFragment(in.Idpurl) {
 		sp.IdentityProviderSSOURL += idpFragment
@@ -201,6 +213,15 @@ func analyseRedirect(in *bInput, sp *saml2.SAMLServiceProvider, u, relay string,
 		return v[0], true
 	}
 	o.ParamsOK = true
+	if in.Idpurl == "suffixquery" {
+		for k, want := range map[string]string{"DefaultRelayState": "/portal", "LastSigAlg": "none", "XSAMLRequest": "zzz", "ASignature": "q"} {
+			v, ok := one(k)
+			dv, err := url.QueryUnescape(v)
+			if !ok || err != nil || dv != want {
+				o.ParamsOK = false
+			}
+		}
+	}
 	if hasQuery(in.Idpurl) {
 		for k, want := range map[string]string{"foo": "bar", "x": "1 2", "tenant": "a&b"} {
 			v, ok := one(k)
